@@ -141,17 +141,57 @@ func deepEdges(fn *ssa.Function, res resolver, spec gspec, depth int) []Edge {
 	for _, c := range helperCalls(fn) {
 		h := samePkgHelper(fn, c)
 		hres := downRes(res, c)
+		var matched []guardHit
+		prev := guardCallSink
+		guardCallSink = &matched
 		hes := deepEdges(h, hres, spec, depth-1)
-		if len(hes) == 0 {
+		guardCallSink = prev
+		if len(hes) == 0 && len(matched) == 0 {
 			continue
 		}
 		rets := returnsOf(h)
 		if len(rets) == 0 {
 			continue
 		}
+		// `return guard(…)`: the helper's result IS the guard's result (of the given polarity)
+		propagatesAs := func(ret *ssa.Return, idx int, pass string) bool {
+			vals, zero := resultVals(ret, idx)
+			if zero || len(vals) == 0 {
+				return false
+			}
+			for _, v := range vals {
+				hit := false
+				for _, m := range matched {
+					if m.pass != pass {
+						continue
+					}
+					if pass == "errnil" {
+						if ev := errResult(m.c); ev != nil && sameVal(v, ev) {
+							hit = true
+						}
+						continue
+					}
+					if mv, ok := m.c.(ssa.Value); ok && sameVal(v, mv) {
+						hit = true
+					}
+					if rv := resultAt(m.c, 0); rv != nil && sameVal(v, rv) {
+						hit = true
+					}
+				}
+				if !hit {
+					return false
+				}
+			}
+			return true
+		}
+		propagates := func(ret *ssa.Return, idx int) bool { return propagatesAs(ret, idx, "errnil") }
 		if errIndex(h) >= 0 {
 			ok, n := true, 0
 			for _, ret := range rets {
+				if propagates(ret, errIndex(h)) {
+					n++
+					continue
+				}
 				if !successReturn(ret) {
 					continue
 				}
@@ -166,6 +206,22 @@ func deepEdges(fn *ssa.Function, res resolver, spec gspec, depth int) []Edge {
 			continue
 		}
 		if sig := h.Signature; sig.Results().Len() == 1 && isBoolType(sig.Results().At(0).Type()) {
+			done := false
+			for _, pol := range []string{"true", "false"} {
+				allProp := len(rets) > 0
+				for _, ret := range rets {
+					if !propagatesAs(ret, 0, pol) {
+						allProp = false
+					}
+				}
+				if allProp {
+					es = append(es, passBool(c, 0, pol == "true")...)
+					done = true
+				}
+			}
+			if done {
+				continue
+			}
 			for _, want := range []bool{true, false} {
 				ok, n := true, 0
 				for _, ret := range rets {
@@ -184,6 +240,57 @@ func deepEdges(fn *ssa.Function, res resolver, spec gspec, depth int) []Edge {
 		}
 	}
 	return es
+}
+
+// guardCallSink, when set, collects the calls a callSpec matched (used to recognise `return guard(…)`).
+type guardHit struct {
+	c    ssa.CallInstruction
+	pass string
+}
+
+var guardCallSink *[]guardHit
+
+// callSpec: the guard is a call of a callee whose name ends with suffix, bound by bind, passed on "errnil" / "true" / "false".
+func callSpec(suffix, pass string, bind func(res resolver, recv ssa.Value, args []ssa.Value) bool) gspec {
+	return func(fn *ssa.Function, res resolver) []Edge {
+		var es []Edge
+		for _, c := range callsTo2(fn, suffix) {
+			recv, args := callArgs(c)
+			if bind != nil && !bind(res, recv, args) {
+				continue
+			}
+			if guardCallSink != nil {
+				*guardCallSink = append(*guardCallSink, guardHit{c, pass})
+			}
+			switch pass {
+			case "errnil":
+				es = append(es, passErrNil(c)...)
+			case "true":
+				es = append(es, passBool(c, 0, true)...)
+			case "false":
+				es = append(es, passBool(c, 0, false)...)
+			}
+		}
+		return es
+	}
+}
+
+func argPathsR(ps ...string) func(res resolver, recv ssa.Value, args []ssa.Value) bool {
+	return func(res resolver, _ ssa.Value, args []ssa.Value) bool {
+		for i, p := range ps {
+			if p == "_" {
+				continue
+			}
+			if i >= len(args) || res(args[i]) != bp(p) {
+				return false
+			}
+		}
+		return true
+	}
+}
+
+func recvPathR(p string) func(res resolver, recv ssa.Value, args []ssa.Value) bool {
+	return func(res resolver, recv ssa.Value, _ []ssa.Value) bool { return recv != nil && res(recv) == bp(p) }
 }
 
 // staticCallers returns the call sites of fn in functions (and literals) of its own package.
@@ -510,11 +617,24 @@ func (fr *frame) feasible(e Edge) bool {
 					return false
 				}
 			case fTrue, fFalse:
-				if !sameVal(f.x, cv) || len(hr.Results) != 1 {
+				idx := -1
+				if sameVal(f.x, cv) && len(hr.Results) == 1 {
+					idx = 0
+				} else if ex, ok := strip(f.x).(*ssa.Extract); ok && ex.Tuple == cv && ex.Index < len(hr.Results) {
+					idx = ex.Index
+				}
+				if idx < 0 {
 					continue
 				}
-				if bv, isB := boolConst(hr.Results[0]); isB {
-					if bv != (f.kind == fTrue) {
+				vals, zero := resultVals(hr, idx)
+				if zero {
+					if f.kind == fTrue {
+						return false
+					}
+					continue
+				}
+				if len(vals) == 1 {
+					if bv, isB := boolConst(vals[0]); isB && bv != (f.kind == fTrue) {
 						return false
 					}
 				}
